@@ -415,8 +415,13 @@ func c20States() []c20State {
 			if e.M.HasPending {
 				cg.pending = e.M.Pending
 			}
-			for _, em := range e.M.Emitted {
-				cg.emitted = append(cg.emitted, em.Latest)
+			var ens []uint64
+			for n := range e.M.Emitted {
+				ens = append(ens, n)
+			}
+			sort.Slice(ens, func(i, j int) bool { return ens[i] < ens[j] })
+			for _, n := range ens {
+				cg.emitted = append(cg.emitted, e.M.Emitted[n].Latest)
 			}
 			return e.C, cg, nil
 		}},
